@@ -16,6 +16,10 @@ TEXT = {
          "An empty input never lowers the expected lg_k; after reset() the resumed lg_k is not asserted (only <= lg_max_k); bounds of union results are a probe, not a verdict."),
  "C05": ("DESIGN 6/C05", "Seeded simulation of CPC producers and a cpc_union with checkpoint/restore at every stage and unequal lg_k arrival orders; coupon counts against an independent (row,col) model, a public-API re-offer probe that decides matrix equality in every flavor, validate(), estimator-state restoration and the equal-(lg_k,C) estimate identity. Sampled histories.",
          "lg_k above 10 (12 thorough) not exercised; matrix equality is decided by count equality plus re-offer (no private access)."),
+ "C07": ("DESIGN 6/C07", "Seeded simulation of producers and an aggregator over kll / req / classic quantiles sketches: merge trees drawn by the scheduler, reader steps interleaved with writers (cached sorted view, lazy level-0 sort), checkpoint/restore, and the internal coin either seeded or adversarial; exact reference multiset per sketch; conservation, extremes, iterator weights, space bound, monotonicity, CDF/PMF coherence and exact-mode exactness are checked after every step. Sampled histories.",
+         "REQ's retained-count bound is only retained <= n (no published closed form); KLL's bound is the published max serialized size."),
+ "C08": ("DESIGN 6/C08", "The simulator owns the library's coin through hook H1: per-operation draw trees are enumerated completely (kll, classic quantiles) and whole histories are enumerated over all coin sequences (req), and unbiasedness is an exact integer identity per explored state; histories are found by seeded search. Also decides that the number of flips does not depend on their outcomes.",
+         "Classic quantiles' down-sampling merge (draws a stride offset from the 64-bit engine) is skipped by the bit oracle and counted; the published-error clause (long streams) is input statistics and not decided here."),
  "C09": ("DESIGN 6/C09", "Seeded simulation of a log-structured sketch store: histories of updates/merges with checkpoints through both serialization APIs (headers, chunked streams, trailing records, torn and lost writes), crashes with recovery from the log, and continue-after-restore against the never-serialized object; every round trip is checked for byte equality of both writers, advertised sizes, exact stream consumption, observational equality and re-serialization. Sampled histories, so exploration.",
          "Assumes the adapters' obs() covers the public API of each family; unordered hash-table sections are compared after an independent canonicalisation written from the layout comments."),
  "C11": ("DESIGN 6/C11", "For each sampled valid image the fault space is enumerated completely (every strict prefix on the bytes and stream paths, every preamble byte x 8 replacement values on both paths) under ASan with exact-size buffers, a tracking allocator (leak after rejection, allocation budget) and a CPU watchdog; images are sampled by seed. Exhaustive per image, sampled over images.",
